@@ -474,7 +474,12 @@ func main() {
 	ev["coverage"] = cov
 	os.MkdirAll(filepath.Join(outRoot(), "evidence"), 0o755)
 	b, _ := json.MarshalIndent(ev, "", " ")
-	must(os.WriteFile(filepath.Join(outRoot(), "evidence", prop+".json"), b, 0o644))
+	if prop == "SELF" {
+		// the shims' self-test is not a property check: its report stays out of evidence/
+		must(os.WriteFile(filepath.Join(verif, ".work", "selftest.json"), b, 0o644))
+	} else {
+		must(os.WriteFile(filepath.Join(outRoot(), "evidence", prop+".json"), b, 0o644))
+	}
 	fmt.Printf("%s tier=%s units=%d executions=%d states=%d exhaustive=%v fresh_violations=%d known=%d wall=%.1fs\n",
 		prop, *tier, len(unitStats), int(agg["executions"]), int(agg["states"]), exhaustive, len(freshSigs), len(knownSeen), time.Since(start).Seconds())
 	if !*keep {
